@@ -289,9 +289,16 @@ def e2e_case(rng, cid):
     ops = [["setup", wp, responses, requests, pp, max_flows, nb, 30, rng.randint(0, 1), int(rng.random() < 0.2)]]
     count = {}
     flips = rng.random() < 0.3
+    removed_backend = None
     for _ in range(rng.randint(5, 14)):
         if rng.random() < 0.03:
             ops.append(["bounce"])            # DeactivateListener + ActivateListener under live flows
+        if rng.random() < 0.05:
+            ops.append(["addbackend"])        # the backend set changes under live flows: they must stay where they are
+            nb += 1
+        elif rng.random() < 0.04 and nb > 1 and removed_backend is None:
+            removed_backend = rng.randrange(nb)
+            ops.append(["rmbackend", removed_backend])
         if flips and rng.random() < 0.2:
             wp = 1 - wp
             ops.append(["recluster", wp])     # cluster update flipping the affinity key under live flows
